@@ -432,6 +432,7 @@ def evalRec {Val : Type} (ops : Ops Val) (r : HaloRec Val) : Src → Val
   | .div a b => ops.div (evalRec ops r a) (evalRec ops r b)
   | .mulParam a p => ops.mulParam p (evalRec ops r a)
   | .fieldOrZeros f => r.attr f
+  | .invProd a b => ops.invProd (evalRec ops r a) (evalRec ops r b)
 
 open AbacusVerif.Generated.StagingCols in
 /-- the dataset fields an expression reads -/
@@ -441,6 +442,7 @@ def srcFields : Src → List String
   | .div a b => srcFields a ++ srcFields b
   | .mulParam a _ => srcFields a
   | .fieldOrZeros f => [f]
+  | .invProd a b => srcFields a ++ srcFields b
 
 theorem zipWith_map_map {α β γ δ : Type} (f : β → γ → δ) (g : α → β) (h : α → γ) (l : List α) :
     List.zipWith f (l.map g) (l.map h) = l.map (fun x => f (g x) (h x)) := by
@@ -470,5 +472,9 @@ theorem evalSrc_toCols {Val : Type} (ops : Ops Val) (fields : List String) (recs
     simp only [evalSrc, evalRec, toCols]
     rw [lookup_names fields (fun m => recs.map (·.attr m)) f (hf f (by simp [srcFields]))]
     simp
+  | invProd a b iha ihb =>
+    have ha := iha (fun f h => hf f (by simp [srcFields, h]))
+    have hb := ihb (fun f h => hf f (by simp [srcFields, h]))
+    simp only [evalSrc, evalRec, ha, hb, zipWith_map_map]
 
 end AbacusVerif.Staging
